@@ -14,6 +14,8 @@ import (
 	"os"
 	"sort"
 	"strings"
+	"testing/fstest"
+
 )
 
 // ---- nondeterministic inputs -------------------------------------------------------------------------------------
@@ -56,9 +58,10 @@ func verifReach(id string) { verifReached[id]++ }
 
 // ---- recorder for script output ------------------------------------------------------------------------------------
 
-type verifRecorder struct{ sb strings.Builder }
+type verifRecorder struct{ buf []byte }
 
-func (r *verifRecorder) Write(p []byte) (int, error) { return r.sb.Write(p) }
+func (r *verifRecorder) Write(p []byte) (int, error) { r.buf = append(r.buf, p...); return len(p), nil }
+func (r *verifRecorder) String() string { return string(r.buf) }
 
 // ---- harness registry --------------------------------------------------------------------------------------------
 
@@ -166,4 +169,16 @@ func VerifMain() {
 			return
 		}
 	}
+}
+var _ = strings.Join
+
+// verifFS is the in-memory file tree handed to Eval/Load (a map from slash-separated path to file content).
+type verifFS = fstest.MapFS
+
+func verifMkFS(files map[string]string) verifFS {
+	m := verifFS{}
+	for k, v := range files {
+		m[k] = &fstest.MapFile{Data: []byte(v)}
+	}
+	return m
 }
